@@ -431,6 +431,37 @@ func (obj *Package) Remove(name string) (removed bool) {
 	return
 }
 
+// Unbind makes a variable unbound. Other than with Remove() the variable
+// stays in the package and in the packages it is visible in so it is unbound
+// in all of them and keeps its export status. A constant, a variable with a
+// set function, and a variable of a locked package are removed from this
+// package only.
+func (obj *Package) Unbind(name string) {
+	name = strings.ToLower(name)
+	home := obj
+	obj.mu.Lock()
+	vv := obj.vars[name]
+	keep := vv != nil && !vv.Const && vv.Set == nil && (vv.Pkg == nil || !vv.Pkg.Locked)
+	if keep {
+		vv.Val = Unbound
+		if vv.Pkg != nil {
+			home = vv.Pkg
+		}
+	}
+	obj.mu.Unlock()
+	if !keep {
+		if !obj.Locked {
+			obj.Remove(name)
+		}
+		return
+	}
+	pname := fmt.Sprintf("%s:%s", home.Name, name)
+	for _, h := range unsetHooks {
+		h.fun(home, name)
+		h.fun(home, pname)
+	}
+}
+
 // Has a variable.
 func (obj *Package) Has(name string) (has bool) {
 	obj.mu.Lock()
@@ -568,6 +599,14 @@ func (obj *Package) Undefine(name string) {
 					delete(u.funcs, name)
 				}
 				u.mu.Unlock()
+			}
+			if _, has := obj.vars[name]; !has && fi.Export {
+				// The name stays exported, as if exported before being
+				// defined.
+				vv := newUnboundVar(name)
+				vv.Pkg = obj
+				vv.Export = true
+				obj.vars[name] = vv
 			}
 		}
 	}
